@@ -65,3 +65,28 @@ def run(ctx: Ctx):
             sc["kill"] = {"1": [0, 1], "4": [2, 3]}       # everybody dead at the same time, twice, before the next release
         ecases.append(sc)
     scen.e2e_stream(ctx, "whole-run-deaths", ecases, "Ladim.C09.dead_stay_dead / Ladim.Whole.records_valid", monitor=contiguous)
+
+    # ---- deaths in the very step of a warm start: a particle that dies there appears in no record of the restarted run
+    from harness.props import c08
+    from harness.common import pmap as _pmap
+    wcases = [scen.gen(ctx.seed * 100000 + 9800 + k, rev=False, layout="sparse", numrec=[2, 1, 3][k % 3], period=1, nsteps=8, kills=True, speed=2.0,
+                       continuous=False, scheme=["EF", "RK2", "RK4"][k % 3]) for k in range(20 if ctx.thorough else 6)]
+    for sc, g in zip(wcases, _pmap(c08.run_base_and_restarts, wcases)):
+        if g["status"] != "ok":
+            continue
+        base_recs = c08.records_of(g["files"], sc)
+        for rs in g["restarts"]:
+            fk = g["files"][rs["k"]]
+            case = dict(scenario=scen.brief(sc), restart_from=fk["name"])
+            ctx.case("warm-deaths", [sc["seed"], rs["k"]], sample=case, nontrivial=True)
+            if rs["status"] != "ok":
+                continue
+            bad = []
+            for t, rec in sorted(c08.records_of(rs["files"], sc).items()):
+                if t in base_recs:
+                    ghosts = sorted(set(rec["pid"]) - set(base_recs[t]["pid"]))
+                    if ghosts:
+                        bad.append(f"time {t}: pids {ghosts} are in the restarted run's record, the uninterrupted run has them dead or gone")
+            if bad:
+                ctx.violation("failing-input", "warm-deaths", case, dict(broken=bad[:3], theorem="Ladim.C09.dead_stay_dead / Ladim.SimWarm.restart_sim"),
+                              tags=dict(first="ghost"))
